@@ -99,6 +99,21 @@ def select_quick(lattice, seed):
     return [chosen[k] for k in sorted(chosen)]
 
 
+def select_thorough(lattice, seed):
+    """every direct-mode point (per-side SDP compatibility / rtcp-mux / latching decide the transport layout there),
+    every WebRtc point within two factors of the default, and a seeded third of the remaining WebRtc points
+    (C10_FULL=1: the whole lattice, about 1.5 h)."""
+    import random
+    if os.environ.get("C10_FULL") == "1":
+        return list(lattice)
+    rnd = random.Random(seed)
+    out = []
+    for c in lattice:
+        if c["mode"] != "WebRtc" or distance(c, DEFAULT) <= 2 or rnd.random() < 1 / 3:
+            out.append(c)
+    return out
+
+
 # --------------------------------------------------------------------------- harness + validation
 
 def run_harness(ck, scenarios, label, nshards):
@@ -252,8 +267,8 @@ def run(tier):
         cfgs = select_quick(lattice, vlib.seed())
         shards = 12
     else:
-        cfgs = lattice
-        shards = 12
+        cfgs = select_thorough(lattice, vlib.seed())
+        shards = 14
     scenarios = [{"id": i + 1, "kind": "c10", "cfg": c, "connect_s": 15} for i, c in enumerate(cfgs)]
     runs = run_harness(ck, scenarios, tier, shards)
     results = validate_runs(ck, runs, "grp")
@@ -295,6 +310,9 @@ def run(tier):
                       "data-channel message and one RTP packet per media kind and direction; non-trivial = validated by "
                       "Trace_LifecyclePair with no C10 rule broken")
     ck.cov["exhaustive"] = bool(tier != "quick" and res["finished"] and len(runs) == len(lattice))
+    ck.cov["direct_modes_exhaustive"] = bool(tier != "quick" and res["finished"] and
+                                             sum(1 for c in cfgs if c["mode"] != "WebRtc") ==
+                                             sum(1 for c in lattice if c["mode"] != "WebRtc"))
     ck.assumptions += [
         "lattice = mode x media x bundle policy x rtcp-mux x ice variant x latching x compat x offerer x schedule "
         "(plain / the offerer's set_remote_description task is held 300 ms after it started ICE) x renegotiation; "
